@@ -11,6 +11,7 @@
 
 pub mod apps;
 pub mod msggen;
+pub mod rawpeer;
 pub mod sched;
 
 use bytes::{Buf, Bytes};
